@@ -39,6 +39,58 @@ def optG : Option GRat → Json
   | none => Json.str "nan"
   | some v => gToJson v
 
+
+/-! ### bank histories -/
+
+def getObj (j : Json) : Except String (Obj GRat) :=
+  match j.getObjVal? "cascade", j.getObjVal? "parallel" with
+  | some ms, _ => do pure (.bank true (← getList getNat ms))
+  | _, some ms => do pure (.bank false (← getList getNat ms))
+  | _, _ => do
+    let (b, a) ← getFilt j
+    pure (.leaf b a)
+
+def optInt (j : Json) (k : String) : Except String (Option Int) :=
+  match optField j k with
+  | none => pure none
+  | some v => do pure (some (← getInt v))
+
+def getHOp (j : Json) : Except String (HOp GRat GRat) := do
+  let t ← getNat (← field j "t")
+  let refs (k : String) : Except String (List Nat) := do getList getNat (← field j k)
+  match ← getStr (← field j "op") with
+  | "setitem" => pure (.upd t (.setitem (← getInt (← field j "i")) (← getNat (← field j "x"))))
+  | "append" => pure (.upd t (.append (← getNat (← field j "x"))))
+  | "insert" => pure (.upd t (.insert (← getInt (← field j "i")) (← getNat (← field j "x"))))
+  | "extend" => pure (.upd t (.extend (← refs "xs")))
+  | "iadd" => pure (.upd t (.iadd (← refs "xs")))
+  | "imul" => pure (.upd t (.imul (← getInt (← field j "k"))))
+  | "pop" => pure (.upd t (.pop (← optInt j "i")))
+  | "delitem" => pure (.upd t (.delitem (← getInt (← field j "i"))))
+  | "setslice" => pure (.upd t (.setslice (← optInt j "i") (← optInt j "j") (← refs "xs")))
+  | "delslice" => pure (.upd t (.delslice (← optInt j "i") (← optInt j "j")))
+  | "reverse" => pure (.upd t .reverse)
+  | "clear" => pure (.upd t .clear)
+  | "swap" => pure (.upd t (.swap (← getInt (← field j "i")) (← getInt (← field j "j"))))
+  | "freq" => pure (.use t (.freq (← getList getG (← field j "ws"))))
+  | "polys" => pure (.use t (.polys (← getList getG (← field j "ws"))))
+  | "is_lti" => pure (.use t .isLti)
+  | "call" => pure (.use t (.call (← getList getG (← field j "xs"))))
+  | o => throw s!"C12 hist: unknown op {o}"
+
+/-- one step of a history: the model's and the spec's observation side by side -/
+def obsToJson (m s : Obs GRat) : Json :=
+  match m, s with
+  | .members ms, _ => Json.mkObj [("members", nats ms)]
+  | .popped x ms, _ => Json.mkObj [("popped", natToJson x), ("members", nats ms)]
+  | .fresh new ms, _ => Json.mkObj [("fresh", nats new), ("members", nats ms)]
+  | .indexError, _ => Json.mkObj [("err", Json.str "IndexError")]
+  | .stuck, _ => Json.mkObj [("stuck", Json.bool true)]
+  | .resp rm, .resp rs => Json.mkObj [("model", arr respToJson rm), ("spec", arr respToJson rs)]
+  | .bool bm, .bool bs => Json.mkObj [("model", Json.bool bm), ("spec", Json.bool bs)]
+  | .out ym, .out ys => Json.mkObj [("model", optJson (arr gToJson) ym), ("spec", optJson (arr gToJson) ys)]
+  | _, _ => Json.mkObj [("stuck", Json.bool true)]
+
 def handle (entry : String) (j : Json) : Except String Json := do
   match entry with
   | "freq" =>
@@ -129,6 +181,13 @@ def handle (entry : String) (j : Json) : Except String Json := do
     pure <| Json.mkObj [
       ("xs", arr gToJson xs), ("model", arr gToJson m), ("steady", arr gToJson s),
       ("H", gToJson h), ("order", natToJson (b.length - 1))]
+  | "hist" =>
+    -- a history of list operations and uses over a heap of filters and (nested, shared) banks
+    let heap ← getList getObj (← field j "objs")
+    let ops ← getList getHOp (← field j "ops")
+    let m := histModel (fun w => w) heap ops
+    let s := histSpec (fun w => w) heap ops
+    pure <| Json.mkObj [("steps", Json.arr (List.zipWith obsToJson m s))]
   | _ => throw s!"C12: unknown entry {entry}"
 
 end ALV.Driver.C12
